@@ -329,7 +329,9 @@ def _c07_eval(reg, case, cache, opt_seed):
 
 
 StandIn("C07/definitions", "C07",
-        "40 seeded (loss, options, data) triples over Minkowski (p 1-3), Fourier (ideal/Gaussian, f in {.3,.5,.8,1}), "
+        "systematic: every MSM weighting x standardisation combination, Fourier cut-offs exactly half-way between two "
+        "frequencies, GSL-div with one exactly constant member; plus 40 seeded (loss, options, data) triples over Minkowski "
+        "(p 1-3), Fourier (ideal/Gaussian, f in {.3,.5,.8,1}), "
         "method of moments (identity / inverse variance / given matrix, with/without standardisation), kernel likelihood "
         "(Silverman, Scott, numeric h), GSL-div (nb_values {None,2,3,5,9,12}, word lengths {None,1,2,3,5}); data: normal, "
         "ties, constant, random walk, scaled; 1-3 coordinates, 1-3 members, lengths 8-40; random weights / filters; "
